@@ -567,20 +567,27 @@ def build_classes(world):
             return ['verbose', 'debug', 'b']
 
     class PDef(AutoParameterObject):
-        def __init__(self, c=1, d=None, debug=False):
+        def __init__(self, c=1, d=None, debug=False, window=(3, 5)):
             self.c = c
             self.d = d
             self.debug = debug
+            self.window = window       # a tuple-valued default, never spelled in configs: part of the representation as it is
 
         @staticmethod
         def dont_persist_default_value_args():
             return ['d']
 
+    class POpt(AutoParameterObject):
+        """options passed through **kwargs are constructor arguments like any other"""
+        def __init__(self, a, **options):
+            self.a = a
+            self.options = options
+
     class PSet(AutoParameterObject):
         def __init__(self, tags):
             self.tags = set(tags)
 
-    for k in (PObj, PSub, PDef, PSet):
+    for k in (PObj, PSub, PDef, PSet, POpt):
         k.__module__ = 'tcw.objs'
         setattr(om, k.__name__, k)
     class MemBox(InMemoryData):
